@@ -622,7 +622,8 @@ for _p in ("C04", "C05"):
         "and nowait calls (publish / purge_nowait / delete_nowait) on its own channel, mailbox bound 1 / 2 / 16, the "
         "transport sometimes taking the client's bytes in pieces of 1-40 with would-blocks; the broker answers one "
         "channel's requests in order and the channels in any relative order - at once, in random batches, one reply "
-        "per read episode, or only once every running channel is waiting.")
+        "per read episode, or only once every running channel is waiting; in a quarter of the scenarios the server goes "
+        "away after a random number of requests, in a third it closes some of the channels (see C09).")
 PROPS["C04"]["explanation"] += (" C04_system_own_reply / C04_system_reply_queue_never_full / "
     "C04_system_waiting_progress (Model/Sys.v: every interleaving of callers, I/O thread and server), "
     "C04_io_read_is_ARead / C04_io_drain_is_ADrain / C04_io_write_is_AWrite (the system's I/O actions are steps of the "
@@ -633,6 +634,22 @@ PROPS["C04"]["explanation"] += (" C04_system_own_reply / C04_system_reply_queue_
 PROPS["C05"]["explanation"] += (" c04sys (nobody hangs while the server answers): every call of every caller "
     "returned whatever the order of the server's answers (C04_system_waiting_progress: no reachable state of the "
     "system is a deadlock).")
+# the server closes channels of the whole system (ASrvClose of Model/Sys.v; c04sys closes them in the real program)
+PROPS["C09"]["check_mods"].append("C04sys")
+PROPS["C09"]["drivers"].append({"name": "c04sys", "n_quick": 120, "n_thorough": 6000, "timeout": 3000})
+PROPS["C09"]["rule"] += (" The whole system (c04sys, see C04): in a third of the scenarios the broker closes some of the "
+    "1-5 channels - instead of its answer to the k-th synchronous request of that channel, or right behind that "
+    "answer, so that reply and verdict sit in the reply queue together -, ignores what the client still sends on "
+    "them, and goes on answering the others in any order.")
+PROPS["C09"]["explanation"] += (" C09_system_isolation / C09_system_closed_caller_released / C09_system_never_stuck "
+    "(Model/Sys.v with the action ASrvClose: for EVERY schedule the other channels' calls return their own answers, "
+    "the reply queue's capacity 2 is never exceeded, the caller of the closed channel is released; "
+    "C09_system_example_capacity_one_refuted: with capacity 1 it is false). c04sys: on the closed channel the calls "
+    "before the close returned their own answers, exactly the waiting (or the next synchronous) call failed, the "
+    "broker saw that channel's requests as issued up to there; every other channel completed its whole program and "
+    "Connection::close returned Ok; the model's server closes at the same point of each channel's history and the "
+    "model's results must be the real ones.")
+PROPS["C09"]["trusted_base"] = PROPS["C09"]["trusted_base"] + [t for t in L2_TRUSTED if t not in PROPS["C09"]["trusted_base"]]
 PROPS["C01"]["check_mods"].append("C04sys")
 PROPS["C01"]["drivers"].append({"name": "c04sys", "n_quick": 60, "n_thorough": 3000, "timeout": 3000})
 PROPS["C01"]["rule"] += (" The whole system (c04sys, see C04): 1-5 caller threads with programs of synchronous and nowait "
